@@ -27,6 +27,7 @@ func readFileCached(name string) (string, error) {
 }
 
 type FuncResult struct {
+	Inlined []string // module functions without a contract whose bodies were executed in place at call sites
 	Key     string
 	VC      *VC
 	Err     string // UNSUPPORTED / contract error / missing contract
@@ -55,6 +56,9 @@ func (e *Exec) reset() {
 	e.strConsts = map[string]string{}
 	e.anchors = map[string]int{}
 	e.usedCallees = map[string]bool{}
+	e.inlined = map[string]bool{}
+	e.writeBlk = nil
+	e.inlineDepth = 0
 	e.sideCells = map[*ssa.Alloc]Value{}
 	e.deferRecs = nil
 	e.inputs = nil
@@ -103,6 +107,10 @@ func verifyFunction(p *Program, cs *Contracts, fn *ssa.Function, con *Contract, 
 	for k := range e.usedCallees {
 		res.Callees = append(res.Callees, k)
 	}
+	for k := range e.inlined {
+		res.Inlined = append(res.Inlined, k)
+	}
+	sort.Strings(res.Inlined)
 	sort.Strings(res.Callees)
 	res.Lines = len(e.vc.lines)
 	return res
@@ -349,12 +357,19 @@ func (e *Exec) run() {
 	}
 	e.cover("cover.pre", "", "true")
 
+	e.execBlocks(s, "true")
+	e.finish(vars)
+}
+
+// execBlocks runs the blocks of e.Fn in topological order of the loop-cut control-flow graph, starting
+// from the given state and path condition. Returns end up in e.rets.
+func (e *Exec) execBlocks(s *State, entryReach string) {
 	for _, b := range e.blockOrder() {
 		e.cur = b
 		e.curInstr = nil
 		if b.Index == 0 {
 			e.st = s
-			e.reach = "true"
+			e.reach = entryReach
 		} else {
 			var ins []incoming
 			for _, p := range b.Preds {
@@ -384,7 +399,149 @@ func (e *Exec) run() {
 		}
 		e.terminate(b)
 	}
-	e.finish(vars)
+}
+
+// inlineCall executes the body of a module function that has no contract in place of the call: loop-free,
+// defer-free, non-recursive helpers only (typically a few lines extracted from a function under contract).
+// Everything the body does is checked as if it were written at the call site.
+func (e *Exec) inlineCall(callee *ssa.Function, bindings, args []Value, guard string) (Value, bool) {
+	if e.inlineDepth >= 3 || len(callee.Blocks) == 0 || callee.Recover != nil {
+		return Value{}, false
+	}
+	for _, b := range callee.Blocks {
+		for _, ins := range b.Instrs {
+			switch x := ins.(type) {
+			case *ssa.Defer, *ssa.Go, *ssa.Select:
+				return Value{}, false
+			case ssa.CallInstruction:
+				if x.Common().StaticCallee() == callee {
+					return Value{}, false
+				}
+			}
+		}
+	}
+	// refuse bodies with loops (they would need invariants)
+	{
+		seen := map[*ssa.BasicBlock]int{}
+		var cyc bool
+		var dfs func(b *ssa.BasicBlock)
+		dfs = func(b *ssa.BasicBlock) {
+			seen[b] = 1
+			for _, s := range b.Succs {
+				if seen[s] == 1 {
+					cyc = true
+				} else if seen[s] == 0 {
+					dfs(s)
+				}
+			}
+			seen[b] = 2
+		}
+		dfs(callee.Blocks[0])
+		if cyc {
+			return Value{}, false
+		}
+	}
+	savedFn, savedCur, savedInstr, savedRets, savedLoops, savedBack, savedReach, savedWB := e.Fn, e.cur, e.curInstr, e.rets, e.loops, e.backEdge, e.reach, e.writeBlk
+	if e.writeBlk == nil {
+		e.writeBlk = e.cur
+	}
+	defer func() {
+		e.Fn, e.cur, e.curInstr, e.rets, e.loops, e.backEdge, e.writeBlk = savedFn, savedCur, savedInstr, savedRets, savedLoops, savedBack, savedWB
+		e.inlineDepth--
+	}()
+	e.inlineDepth++
+	e.inlined[FuncKey(callee)] = true
+	e.Fn, e.rets = callee, nil
+	e.loops = map[*ssa.BasicBlock]*loopInfo{}
+	e.backEdge = map[[2]*ssa.BasicBlock]bool{}
+	for i, p := range callee.Params {
+		if i < len(args) {
+			e.vals[p] = e.conv(args[i], p.Type())
+		}
+	}
+	for i, fv := range callee.FreeVars {
+		if i < len(bindings) {
+			e.vals[fv] = bindings[i]
+		}
+	}
+	pre := e.st
+	entryReach := savedReach
+	if guard != "" && guard != "true" {
+		entryReach = e.define("inl", "Bool", "(and "+savedReach+" "+guard+")")
+	}
+	e.execBlocks(pre.clone(), entryReach)
+	rets := e.rets
+	// back in the caller
+	e.Fn, e.cur, e.curInstr = savedFn, savedCur, savedInstr
+	if len(rets) == 0 {
+		// the helper never returns normally on this path
+		e.st = pre
+		e.reach = savedReach
+		if guard == "" || guard == "true" {
+			e.assume("false")
+		} else {
+			e.assume("(not " + guard + ")")
+		}
+		return e.freshResult(callee), true
+	}
+	var ins []incoming
+	var conds []string
+	for _, r := range rets {
+		ins = append(ins, incoming{cond: r.reach, st: r.st})
+		conds = append(conds, r.reach)
+	}
+	if guard != "" && guard != "true" {
+		ins = append(ins, incoming{cond: "(and " + savedReach + " (not " + guard + "))", st: pre})
+	}
+	e.st = e.mergeStates(ins)
+	// the caller continues on every path on which the helper returned (or was not called)
+	parts := append([]string{}, conds...)
+	if guard != "" && guard != "true" {
+		parts = append(parts, "(and "+savedReach+" (not "+guard+"))")
+	}
+	if len(parts) == 1 {
+		e.reach = parts[0]
+	} else {
+		e.reach = e.define("Rinl", "Bool", "(or "+strings.Join(parts, " ")+")")
+	}
+	sig := callee.Signature
+	nres := sig.Results().Len()
+	var results []Value
+	for i := 0; i < nres; i++ {
+		var vs []Value
+		for _, r := range rets {
+			vs = append(vs, e.conv(r.results[i], sig.Results().At(i).Type()))
+		}
+		m := mergeValues(conds, vs)
+		for k := range m.S {
+			if strings.HasPrefix(m.S[k], "(ite") {
+				m.S[k] = e.define("inlres", slotsOf(m.T)[k].Sort, m.S[k])
+			}
+		}
+		results = append(results, m)
+	}
+	switch nres {
+	case 0:
+		return Value{T: sig.Results()}, true
+	case 1:
+		return results[0], true
+	}
+	return Value{T: sig.Results(), Tup: results}, true
+}
+
+func (e *Exec) freshResult(callee *ssa.Function) Value {
+	rs := callee.Signature.Results()
+	switch rs.Len() {
+	case 0:
+		return Value{T: rs}
+	case 1:
+		return e.freshValue("inl_noret", rs.At(0).Type())
+	}
+	var tup []Value
+	for i := 0; i < rs.Len(); i++ {
+		tup = append(tup, e.freshValue("inl_noret", rs.At(i).Type()))
+	}
+	return Value{T: rs, Tup: tup}
 }
 
 func (e *Exec) loopHeaderText(li *loopInfo) string {
@@ -422,8 +579,12 @@ func (e *Exec) enterLoop(li *loopInfo) {
 	}
 	hdr := e.loopHeaderText(li)
 	if li.spec.Header != "" && !strings.Contains(hdr, li.spec.Header) {
-		// the loop was rewritten: the invariants are still tried; what cannot be bound is a failed obligation
-		e.oblige("inv.bind", fmt.Sprintf("%d.header", li.ordinal), fmt.Sprintf("loop %d: contract expects header %q, source has %q", li.ordinal, li.spec.Header, hdr), nil, "", "false")
+		// the loop header was edited: that alone is no failure (a renamed variable that the invariants do not
+		// mention, a changed bound that they still cover); the invariants are tried against the loop with this
+		// ordinal, and whatever can no longer be bound or proved is the failed obligation
+		if !e.discovery {
+			fmt.Fprintf(os.Stderr, "note: %s loop %d: contract written for header %q, source has %q\n", shortKey(e.Key), li.ordinal, li.spec.Header, hdr)
+		}
 	}
 	env := &Env{e: e, vars: map[string]Value{}, st: s, old: e.entry, pkgPath: e.Con.PkgPath, lookup: e.localEnv(s)}
 	for i, inv := range li.spec.Invs {
